@@ -33,6 +33,7 @@ type harnessCfg struct {
 	Quick     tierCfg           `json:"quick"`
 	Thorough  tierCfg           `json:"thorough"`
 	MaxInstr  int64             `json:"max_instr"`
+	MaxDecisions int            `json:"max_decisions"`
 	Intercept map[string]string `json:"intercept"`
 	Inpkg     bool              `json:"inpkg"`
 	Bounds    string            `json:"bounds"`
@@ -86,6 +87,7 @@ func mkConfig(l *loaded, h harnessCfg, t tierCfg, thorough bool) *interp.Config 
 		Workers:       workers(),
 		MaxPaths:      t.Paths,
 		MaxInstr:      h.MaxInstr,
+		MaxDecisions:  h.MaxDecisions,
 		Deadline:      time.Now().Add(time.Duration(t.Secs) * time.Second),
 		FeasTimeoutMs: 10000,
 		AssertTimeMs:  20000,
